@@ -3,6 +3,7 @@ package rules
 import (
 	"go/token"
 	"go/types"
+	"strings"
 
 	"golang.org/x/tools/go/ssa"
 
@@ -27,6 +28,8 @@ func runC05(c *Ctx) {
 	r.Rule("R4-verifier-shape", "verifier length constant in RFC 7636 range, unpadded URL-safe base64 of crypto/rand bytes", 4)
 	r.Rule("R5-redemption", "redeemed verifier is GetCodeVerifier() of the loaded CSRF cookie and reaches the token request as code_verifier in every Redeem implementation", 8)
 	r.Rule("R7-method-from-config", "ProviderData.CodeChallengeMethod is written only from the operator's option", 2)
+	r.Rule("R8-legacy-force-method", "the legacy conversion lets force-code-challenge-method alone select the PKCE method", 2)
+	r.Rule("R9-verifier-only-to-token-request", "every Redeem implementation sends its verifier only as code_verifier of the token request; the parameter set carrying it is used only through url.Values methods", 4)
 	r.Rule("R6-hashed-on-wire", "login URL gets only hashed state/nonce; raw csrf fields have a closed reader set", 10)
 
 	a := c.cbAnchors("R1-nonce-before-validate")
@@ -40,6 +43,8 @@ func runC05(c *Ctx) {
 	runC05R5(c, a)
 	runC05R6(c, a)
 	runC05R7(c)
+	runC05R8(c, "R8-legacy-force-method")
+	runC05R9(c, "R9-verifier-only-to-token-request")
 }
 
 func runC05R2(c *Ctx, a *cbAnchors) {
@@ -652,5 +657,178 @@ func runC05R7(c *Ctx) {
 		c.ok(rule, "parse|"+fnKey(parse), parse.Blocks[0].Instrs[0], "returns the configured method or \"\"")
 	} else {
 		c.bad(rule, "parse|"+fnKey(parse), parse.Blocks[0].Instrs[0], "parseCodeChallengeMethod returns something other than the configured method", nil, 0)
+	}
+}
+
+// runC05R8: the deprecated force-code-challenge-method option still switches PKCE on. In the legacy
+// conversion, on every path where ForceCodeChallengeMethod is non-empty and CodeChallengeMethod is
+// empty, the provider's CodeChallengeMethod ends up as ForceCodeChallengeMethod; otherwise it is
+// CodeChallengeMethod.
+func runC05R8(c *Ctx, rule string) {
+	conv := c.Fn(rule, "(*pkg/apis/options.LegacyProvider).convert")
+	forceF := c.Field(rule, "pkg/apis/options.LegacyProvider.ForceCodeChallengeMethod")
+	ccmF := c.Field(rule, "pkg/apis/options.LegacyProvider.CodeChallengeMethod")
+	provF := c.Field(rule, "pkg/apis/options.Provider.CodeChallengeMethod")
+	if conv == nil || forceF == nil || ccmF == nil || provF == nil {
+		return
+	}
+	recv := conv.Params[0]
+	isLoadOf := func(p *walk.Path, dv walk.DV, f *types.Var) bool {
+		base, ok := walk.FieldLoadBase(p.Resolve(dv).V, f)
+		return ok && p.Resolve(p.Op(base, p.Resolve(dv))).V == ssa.Value(recv)
+	}
+	n := 0
+	c.WalkShallow(rule, conv, func(p *walk.Path) {
+		rv, ok := p.ReturnDV(1)
+		if !ok || !DefinitelyNil(p, rv, p.End()) {
+			return
+		}
+		at := p.End()
+		// final value stored into provider.CodeChallengeMethod on this path
+		var last walk.DV
+		found := false
+		for _, s := range p.Steps {
+			st, ok := s.In.(*ssa.Store)
+			if !ok {
+				continue
+			}
+			if fa, ok := st.Addr.(*ssa.FieldAddr); ok && walk.FieldOf(fa.X.Type(), fa.Field) == provF {
+				last, found = p.StepOp(st.Val, s), true
+			}
+		}
+		if !found {
+			return
+		}
+		forceSet := eqConstAtom(p, at, false, "", func(x walk.DV) bool { return isLoadOf(p, x, forceF) })
+		ccmEmpty := eqConstAtom(p, at, true, "", func(x walk.DV) bool { return isLoadOf(p, x, ccmF) })
+		n++
+		key := "legacy-force-method|" + fnKey(conv)
+		switch {
+		case forceSet && ccmEmpty:
+			if isLoadOf(p, last, forceF) {
+				c.ok(rule, key+"|force-only", p.Exit, "force-code-challenge-method alone selects the method")
+			} else {
+				c.bad(rule, key, p.Exit, "with only the deprecated force-code-challenge-method option set, the converted provider has no code-challenge method: PKCE is silently off", p, at)
+			}
+		default:
+			if isLoadOf(p, last, ccmF) {
+				c.ok(rule, key+"|configured", p.Exit, "code-challenge-method is passed through")
+			} else if isLoadOf(p, last, forceF) {
+				c.bad(rule, key, p.Exit, "force-code-challenge-method overrides on a path where it is not known to be the only option set", p, at)
+			} else {
+				c.bad(rule, key, p.Exit, "the converted provider's code-challenge method is neither of the two configured options", p, at)
+			}
+		}
+	})
+	if n == 0 {
+		c.R.Unknown(rule, "legacy-force-method|none", c.P.Pos(conv.Pos()), "the legacy conversion never sets Provider.CodeChallengeMethod")
+	}
+}
+
+// runC05R9: the verifier a Redeem implementation receives goes to the token request and nowhere else.
+// Uses of the codeVerifier parameter: a comparison, url.Values.Add/Set under the key "code_verifier",
+// oauth2.SetAuthURLParam("code_verifier", ·), or a module helper's parameter (followed). The url.Values
+// that received it is used only through url.Values methods (Encode for the body); handing it to
+// anything else (a formatter, a logger, a describing helper) can surface the verifier in an error
+// page or log.
+func runC05R9(c *Ctx, rule string) {
+	redeemM := c.Method(rule, "providers.Provider.Redeem")
+	if redeemM == nil {
+		return
+	}
+	isValuesMethod := func(cc *ssa.CallCommon) bool {
+		sc := cc.StaticCallee()
+		if sc == nil || sc.Signature.Recv() == nil {
+			return false
+		}
+		return strings.HasSuffix(sc.Signature.Recv().Type().String(), "net/url.Values")
+	}
+	n := 0
+	var checkParam func(fn *ssa.Function, pa *ssa.Parameter, depth int)
+	seen := map[*ssa.Parameter]bool{}
+	checkParam = func(fn *ssa.Function, pa *ssa.Parameter, depth int) {
+		if seen[pa] || depth > 3 {
+			return
+		}
+		seen[pa] = true
+		key := "verifier-use|" + fnKey(fn)
+		// the parameter may be spilled to a cell when a closure captures it
+		var values []ssa.Value
+		values = append(values, pa)
+		for _, ref := range *pa.Referrers() {
+			if st, ok := ref.(*ssa.Store); ok && st.Val == ssa.Value(pa) {
+				if al, ok := st.Addr.(*ssa.Alloc); ok {
+					for _, r2 := range *al.Referrers() {
+						if ld, ok := r2.(*ssa.UnOp); ok && ld.Op == token.MUL {
+							values = append(values, ld)
+						}
+					}
+				}
+			}
+		}
+		for _, v := range values {
+			for _, ref := range *v.Referrers() {
+				switch x := ref.(type) {
+				case *ssa.BinOp, *ssa.DebugRef:
+				case *ssa.Store:
+					if _, ok := x.Addr.(*ssa.Alloc); ok && x.Val == v {
+						continue // the spill itself
+					}
+					// element of a []string literal handed to url.Values{"code_verifier": {v}} etc.: not used today
+					c.R.Bad(rule, key, c.pos(x), "the PKCE verifier is stored somewhere other than the token request parameters", nil, nil)
+				case *ssa.MakeClosure:
+				case ssa.CallInstruction:
+					cc := x.Common()
+					n++
+					switch {
+					case isValuesMethod(cc) && (cc.StaticCallee().Name() == "Add" || cc.StaticCallee().Name() == "Set"):
+						if k, ok := ConstString(cc.Args[1]); ok && k == "code_verifier" {
+							c.ok(rule, key, x, "params."+cc.StaticCallee().Name()+"(\"code_verifier\", verifier)")
+							// the Values object: only url.Values methods may touch it
+							vals := cc.Args[0]
+							for _, r2 := range *vals.Referrers() {
+								ci, ok := r2.(ssa.CallInstruction)
+								if !ok {
+									continue
+								}
+								if isValuesMethod(ci.Common()) {
+									continue
+								}
+								c.R.Bad(rule, "params-use|"+fnKey(fn), c.pos(ci), "the token-request parameters, which carry the PKCE verifier, are handed to "+walk.CalleeName(ci.Common())+": the verifier can surface in an error message, page or log", nil, nil)
+							}
+						} else {
+							c.R.Bad(rule, key, c.pos(x), "the PKCE verifier is added to the request under a key other than code_verifier", nil, nil)
+						}
+					case cc.StaticCallee() != nil && cc.StaticCallee().String() == "golang.org/x/oauth2.SetAuthURLParam":
+						if k, ok := ConstString(cc.Args[0]); ok && k == "code_verifier" {
+							c.ok(rule, key, x, "oauth2.SetAuthURLParam(\"code_verifier\", verifier)")
+						} else {
+							c.R.Bad(rule, key, c.pos(x), "the PKCE verifier is sent under a key other than code_verifier", nil, nil)
+						}
+					case cc.StaticCallee() != nil && c.P.InModule(cc.StaticCallee()) && len(cc.StaticCallee().Blocks) > 0:
+						callee := cc.StaticCallee()
+						for i, a := range cc.Args {
+							if a == v && i < len(callee.Params) {
+								c.ok(rule, key+"|to|"+fnKey(callee), x, "passed on to a module helper (followed)")
+								checkParam(callee, callee.Params[i], depth+1)
+							}
+						}
+					default:
+						c.R.Bad(rule, key, c.pos(x), "the PKCE verifier is handed to "+walk.CalleeName(cc)+", which is not the token request", nil, nil)
+					}
+				default:
+					c.R.Bad(rule, key, c.pos(ref), "the PKCE verifier flows into "+ref.String(), nil, nil)
+				}
+			}
+		}
+	}
+	for _, impl := range c.P.Implementations(redeemM) {
+		if !c.P.InModule(impl) || len(impl.Blocks) == 0 || impl.Synthetic != "" || len(impl.Params) < 5 {
+			continue
+		}
+		checkParam(impl, impl.Params[4], 0)
+	}
+	if n == 0 {
+		c.R.Unknown(rule, "verifier-use|none", "-", "no Redeem implementation uses its verifier")
 	}
 }
